@@ -61,7 +61,63 @@ let parse_run () : cli_run =
   let files = parse_files () in
   { cr_txfile = txfile; cr_order = order; cr_dir = files; cr_faults = faults }
 
+(* ---- mode c09: M-STORE-TX histories (C09 stage cli):
+   <id> <nruns> { <tx-mode> <count> <faults> <nfiles> { <version> <directive> <nstmts> <stmt>.. } } *)
+let parse_mode s = match s with "none" -> TxNone | "file" -> TxFile | "all" -> TxAll | s -> failwith ("txmode " ^ s)
+let parse_tfiles () : tfile list =
+  let nfiles = next_int () in
+  Stdlib.List.init nfiles (fun _ -> ()) |> Stdlib.List.map (fun () ->
+    let v = bytes_of_string (unhex (next ())) in
+    let d = match next () with
+      | "-" -> None | "bad" -> Some None | s -> Some (Some (parse_mode s)) in
+    let ns = next_int () in
+    let stmts = Stdlib.List.init ns (fun _ -> ()) |> Stdlib.List.map (fun () -> bytes_of_string (unhex (next ()))) in
+    { tf_file = { f_version = v; f_stmts = stmts; f_ckpt = false }; tf_directive = d; tf_bad = None })
+let parse_mrun () : m_run =
+  let g = parse_mode (next ()) in
+  let n = nat_of_int (next_int ()) in
+  let faults = match next () with "-" -> [] | s -> Stdlib.List.init (String.length s) (fun i -> s.[i] = '1') in
+  let dir = parse_tfiles () in
+  { mr_mode = g; mr_n = n; mr_dir = dir; mr_faults = faults }
+let show_mx = function
+  | XReadErr -> "readerr"
+  | XPend PNoPending -> "nopending"
+  | XPend _ -> "pend"
+  | XRun MDone -> "done"
+  | XRun MDirective -> "directive"
+  | XRun (MFail SReadErr) -> "readerr"
+  | XRun (MFail (SExec o)) -> show_exec o
+let rec drop n l = if n <= 0 then l else match l with [] -> [] | _ :: t -> drop (n - 1) t
+
+let c09_main () =
+  (try
+    while true do
+      let line = input_line stdin in
+      if line <> "" then begin
+        toks := Array.of_list (Stdlib.List.filter (fun s -> s <> "") (String.split_on_char ' ' line));
+        pos := 0;
+        let id = next () in
+        let nruns = next_int () in
+        let runs = Stdlib.List.init nruns (fun _ -> ()) |> Stdlib.List.map (fun () -> parse_mrun ()) in
+        let res = m_history heq hs runs { s_journal = []; s_tbl = [] } in
+        let last = ref { s_journal = []; s_tbl = [] } in
+        Stdlib.List.iteri (fun i ((o, d), _) ->
+          let delta = drop (Stdlib.List.length !last.s_journal) d.s_journal in
+          last := d;
+          Printf.printf "%s run%d outcome=%s journal=[%s] table=[%s]\n" id i (show_mx o)
+            (String.concat "," (Stdlib.List.map (fun (_, s) -> hexb s) delta))
+            (String.concat " " (Stdlib.List.map show_row (read_revisions d.s_tbl)))) res;
+        let dir = match Stdlib.List.rev runs with r :: _ -> Stdlib.List.map (fun tf -> tf.tf_file) r.mr_dir | [] -> [] in
+        let st = match report true true dir (read_revisions !last.s_tbl) with
+          | SOk s -> if s.s_ok then "OK" else "PENDING"
+          | _ -> "err" in
+        Printf.printf "%s status=%s\n" id st
+      end
+    done
+  with End_of_file -> ())
+
 let () =
+  if Array.length Sys.argv > 1 && Sys.argv.(1) = "c09" then c09_main () else
   (try
     while true do
       let line = input_line stdin in
